@@ -135,6 +135,16 @@
 //# ob name=slice_bytes_n2_zero fn=value::ops::slice kind=bounded bound="len 2, step 0" stmt="a zero step is an error"
     slice_bytes!(slice_bytes_n2_zero, 2, Some(kani::any()), None, Some(0), 4);
 
+    // end-to-end shapes (measured: see DESIGN §0; disabled unless a measurement shows they finish)
+//# ob name=slice_bytes_n0_back role=disabled fn=value::ops::slice kind=bounded bound="len 0, step -1, both bounds omitted" stmt="b''[::-1] is b''"
+//# ob name=slice_bytes_n2_back1_ss role=disabled fn=value::ops::slice kind=bounded bound="len 2, step -1, all i64 bounds" stmt="bytes[a:b:-1] equals Python's selection"
+//# ob name=slice_bytes_n3_fwd1_ss role=disabled fn=value::ops::slice kind=bounded bound="len 3, step omitted, all i64 bounds" stmt="bytes[a:b] equals Python's selection"
+//# ob name=slice_bytes_n3_min_ss role=disabled fn=value::ops::slice kind=bounded bound="len 3, step i64::MIN" stmt="bytes[a:b:i64::MIN] equals Python's selection (no overflow negating the step)"
+    slice_bytes!(slice_bytes_n0_back, 0, None, None, Some(-1), 2);
+    slice_bytes!(slice_bytes_n2_back1_ss, 2, Some(kani::any()), Some(kani::any()), Some(-1), 4);
+    slice_bytes!(slice_bytes_n3_fwd1_ss, 3, Some(kani::any()), Some(kani::any()), None, 5);
+    slice_bytes!(slice_bytes_n3_min_ss, 3, Some(kani::any()), Some(kani::any()), Some(i64::MIN), 5);
+
     // ---- slice() end to end: Kani cannot finish on slice() (the drop/iteration glue of every dyn Object is explored
     // even for byte strings: > 5 min at length 0), so the per-kind glue is covered by a BOUNDED stand-in executed
     // natively on the property's own box. Not counted as proof.
